@@ -41,7 +41,8 @@ PlanC01Quick ==
   [sample |-> E("sample", {L1data, L2mixed, L4mixed},                         1, {}, FALSE),
    row    |-> E("row",    {L1data, L1empty, L2mixed, L2sym, L2gap, L4mixed},  1, {}, FALSE),
    rnd    |-> E("rnd",    {L2mixed, L2gap, L4mixed},                          1, {}, FALSE),
-   range2 |-> E("range",  {L2one, L2mixed},                                   2, RangeT, FALSE),
+   range2 |-> E("range",  {L2one},                                            2, RangeT, FALSE),
+   range1 |-> E("range",  {L2mixed, L1data},                                  1, {}, FALSE),
    range4 |-> E("range",  {L4one},                                            1, {}, FALSE)]
 
 PlanC01Thorough ==
@@ -54,7 +55,7 @@ PlanC01Thorough ==
 
 (* the verifier as it was before "fix: range verification must check per-row share counts" *)
 PlanRangeRegress ==
-  [range2 |-> E("range",  {L2one},                                            2, RangeT, FALSE)]
+  [range2 |-> E("range",  {L2one},                                            1, {}, FALSE)]
 
 (* ------------------------------- C02 ----------------------------------- *)
 NdT == {"rm", "move", "entry", "add"}
